@@ -1076,7 +1076,10 @@ class _Frame:
             ax = self._axis(args, kwargs, 0) or 0
             return tuple(np.take(x, i, axis=ax) for i in range(x.shape[ax]))
         if name == "index_add_" or name == "index_add":
-            dim, idx, src = self._int(args[0]), args[1], I._obj(args[2])
+            a3 = list(args) + [None] * 3
+            dim = self._int(kwargs.get("dim", a3[0]))
+            idx = kwargs.get("index", a3[1])
+            src = I._obj(kwargs.get("source", kwargs.get("tensor", a3[2])))
             alpha = kwargs.get("alpha", 1)
             tgt = x if name.endswith("_") else x.copy()
             if isinstance(idx, np.ndarray) and idx.dtype == object:
